@@ -56,6 +56,10 @@ func runC01(c *Ctx) {
 	if a != nil {
 		rulePreAuthRaceFree(c, a) // "all concurrent lookups and key-list replacements": the lookups see a consistent list
 	}
+	// completeness starts at the configuration: a configured (cipher, secret) is in the list unless it is a true duplicate
+	if ra := findReload(c, "DEDUP"); ra != nil {
+		ruleDedup(c, ra)
+	}
 }
 
 // C01.UPDATE: every implementation of CipherList.Update stores its parameter into the list field and does not mutate the old list in place.
